@@ -153,6 +153,16 @@ func checkMain(args []string) int {
 	covTotal, covDead := map[string]int{}, map[string]int{}
 	var deadNotes []string
 	var outOfSubset []string
+	// A failed obligation is assumed after it has been checked (Boogie style), so everything after it in the same function may be
+	// vacuous: a refuted vacuity probe in such a function is a consequence of the failure, not a contradictory contract.
+	funcFailed := map[string]bool{}
+	for _, u := range units {
+		for _, ob := range u.fc.obls {
+			if !ob.Cover && (ob.Result == nil || ob.Result.Verdict != "unsat") {
+				funcFailed[ob.Func] = true
+			}
+		}
+	}
 	for _, u := range units {
 		for a := range u.fc.assumes {
 			assumptions[a] = true
@@ -187,7 +197,7 @@ func checkMain(args []string) int {
 				// vacuity probes are not proof obligations. A refuted entry probe (contradictory precondition) or a function
 				// none of whose returns is reachable breaks the check; a single unreachable return is just dead code.
 				covTotal[ob.Func]++
-				if r.Verdict != want {
+				if r.Verdict != want && !funcFailed[ob.Func] {
 					covDead[ob.Func]++
 					deadNotes = append(deadNotes, ob.Name)
 					if strings.HasSuffix(ob.Name, "#cover:entry") || strings.HasSuffix(ob.Name, "#cover") {
